@@ -1362,6 +1362,64 @@ pub static LEAK_NEXT_RESET: std::sync::atomic::AtomicBool = std::sync::atomic::A
 
 struct ViolationUnwind;
 
+// ---------------------------------------------------------------------------------------------
+// Pool of model threads (thread creation costs ~300us here; an execution has ~50 steps)
+
+type JobFn = Box<dyn FnOnce() + Send + 'static>;
+static POOL_JOB: [std::sync::Mutex<Option<JobFn>>; MAX_THREADS] = {
+    const M: std::sync::Mutex<Option<JobFn>> = std::sync::Mutex::new(None);
+    [M; MAX_THREADS]
+};
+static POOL_SEQ: [AtomicU32; MAX_THREADS] = {
+    const Z: AtomicU32 = AtomicU32::new(0);
+    [Z; MAX_THREADS]
+};
+static POOL_ALIVE: [AtomicU32; MAX_THREADS] = {
+    const Z: AtomicU32 = AtomicU32::new(0);
+    [Z; MAX_THREADS]
+};
+static POOL_DONE: [AtomicU32; MAX_THREADS] = {
+    const Z: AtomicU32 = AtomicU32::new(0);
+    [Z; MAX_THREADS]
+};
+
+fn pool_main(i: usize, mut seen: u32) {
+    loop {
+        // wait for a new job
+        let mut spins = 0u32;
+        loop {
+            let cur = POOL_SEQ[i].load(Ordering::Acquire);
+            if cur != seen {
+                seen = cur;
+                break;
+            }
+            spins += 1;
+            if spins < 20_000 {
+                std::hint::spin_loop();
+            } else {
+                futex_wait(&POOL_SEQ[i], seen);
+            }
+        }
+        let job = POOL_JOB[i].lock().unwrap().take();
+        if let Some(j) = job {
+            j();
+        }
+        POOL_DONE[i].store(1, Ordering::SeqCst);
+    }
+}
+
+fn pool_submit(i: usize, job: JobFn) {
+    if POOL_ALIVE[i].load(Ordering::SeqCst) == 0 {
+        let seen = POOL_SEQ[i].load(Ordering::SeqCst);
+        POOL_ALIVE[i].store(1, Ordering::SeqCst);
+        std::thread::Builder::new().stack_size(512 * 1024).spawn(move || pool_main(i, seen)).expect("spawn pool thread");
+    }
+    POOL_DONE[i].store(0, Ordering::SeqCst);
+    *POOL_JOB[i].lock().unwrap() = Some(job);
+    POOL_SEQ[i].fetch_add(1, Ordering::SeqCst);
+    futex_wake(&POOL_SEQ[i]);
+}
+
 fn new_thread_st(name: &'static str, pending: Pending, clock: VClock, nest: Vec<i32>, max_nest: u32) -> ThreadSt {
     ThreadSt {
         name,
@@ -1422,7 +1480,14 @@ fn model_thread<S: Sync + Send + 'static>(sc: usize, st: std::sync::Arc<S>, i: u
     EXITED.fetch_add(1, Ordering::SeqCst);
 }
 
+pub static PROF: [AtomicU64; 6] = [AtomicU64::new(0), AtomicU64::new(0), AtomicU64::new(0), AtomicU64::new(0), AtomicU64::new(0), AtomicU64::new(0)];
+
 pub fn run_one<S: Sync + Send + 'static>(sc: &Scenario<S>, choices: &[u32], keep_log: bool) -> Outcome {
+    let t_start = std::time::Instant::now();
+    let mut t_setup = t_start;
+    let mut t_spawn = t_start;
+    let mut t_par = t_start;
+    let mut t_join = t_start;
     install_hooks();
     block_signals(&sc.signals, libc::SIG_BLOCK);
     let mut ex = Box::new(Exec::new(sc.opts.clone(), choices.to_vec()));
@@ -1452,7 +1517,6 @@ pub fn run_one<S: Sync + Send + 'static>(sc: &Scenario<S>, choices: &[u32], keep
     EXITED.store(0, Ordering::SeqCst);
     PARKED.store(0, Ordering::SeqCst);
     let mut spawned = 0usize;
-    let mut handles = Vec::new();
 
     let body = std::panic::catch_unwind(std::panic::AssertUnwindSafe(|| -> Result<u64, String> {
         let state = {
@@ -1462,6 +1526,7 @@ pub fn run_one<S: Sync + Send + 'static>(sc: &Scenario<S>, choices: &[u32], keep
             std::sync::Arc::new(s)
         };
         LEAK_NEXT_RESET.store(false, Ordering::SeqCst);
+        t_setup = std::time::Instant::now();
         let e = exec();
         let base = e.threads[0].clock;
         for (i, ts) in sc.threads.iter().enumerate() {
@@ -1477,11 +1542,7 @@ pub fn run_one<S: Sync + Send + 'static>(sc: &Scenario<S>, choices: &[u32], keep
         let scp = sc as *const Scenario<S> as usize;
         for i in 0..n {
             let st = state.clone();
-            let h = std::thread::Builder::new()
-                .stack_size(512 * 1024)
-                .spawn(move || model_thread::<S>(scp, st, i, epoch))
-                .expect("spawn model thread");
-            handles.push(h);
+            pool_submit(i + 1, Box::new(move || model_thread::<S>(scp, st, i, epoch)));
             spawned += 1;
         }
         // Prime: every thread runs alone up to its first scheduling point.
@@ -1495,15 +1556,27 @@ pub fn run_one<S: Sync + Send + 'static>(sc: &Scenario<S>, choices: &[u32], keep
             }
         }
         exec().phase = Phase::Parallel;
+        t_spawn = std::time::Instant::now();
         // The controller makes the first decision as "thread 0" (not enabled itself).
         schedule_from_controller();
         wait_go(CONTROLLER);
+        t_par = std::time::Instant::now();
         if exec().abandoned {
             return Err(String::new());
         }
-        for h in handles.drain(..) {
-            let _ = h.join();
+        // all model threads have handed the token on; wait until their jobs have returned
+        for i in 1..=n {
+            let mut k = 0u32;
+            while POOL_DONE[i].load(Ordering::SeqCst) == 0 {
+                k += 1;
+                if k < 100_000 {
+                    std::hint::spin_loop();
+                } else {
+                    std::thread::yield_now();
+                }
+            }
         }
+        t_join = std::time::Instant::now();
         let e = exec();
         e.phase = Phase::Finish;
         e.threads[0].pending = Pending::Op;
@@ -1563,7 +1636,12 @@ pub fn run_one<S: Sync + Send + 'static>(sc: &Scenario<S>, choices: &[u32], keep
         for s in SLOTS.iter() {
             s.go.store(0, Ordering::SeqCst);
         }
-        std::mem::forget(handles);
+        // pool threads that did not return from their job are parked for good: replace them lazily
+        for i in 1..=n {
+            if POOL_DONE[i].load(Ordering::SeqCst) == 0 {
+                POOL_ALIVE[i].store(0, Ordering::SeqCst);
+            }
+        }
         LEAK_NEXT_RESET.store(true, Ordering::SeqCst);
     }
     let out = Outcome {
@@ -1596,6 +1674,13 @@ pub fn run_one<S: Sync + Send + 'static>(sc: &Scenario<S>, choices: &[u32], keep
     } else {
         drop(ex);
     }
+    let t_end = std::time::Instant::now();
+    PROF[0].fetch_add((t_setup - t_start).as_nanos() as u64, Ordering::Relaxed);
+    PROF[1].fetch_add(t_spawn.saturating_duration_since(t_setup).as_nanos() as u64, Ordering::Relaxed);
+    PROF[2].fetch_add(t_par.saturating_duration_since(t_spawn).as_nanos() as u64, Ordering::Relaxed);
+    PROF[3].fetch_add(t_join.saturating_duration_since(t_par).as_nanos() as u64, Ordering::Relaxed);
+    PROF[4].fetch_add(t_end.saturating_duration_since(t_join).as_nanos() as u64, Ordering::Relaxed);
+    PROF[5].fetch_add(1, Ordering::Relaxed);
     out
 }
 
